@@ -702,6 +702,12 @@ def success_conds(body, node, callee_rx):
     out = []
     for c in F.dominating_conds(body, node):
         if c.kind == 'disc':
+            # the Ready arm of an await loop says nothing about Ok/Err of the awaited result
+            top = c.expr
+            while top.k in ('let', 'ref', 'deref'):
+                top = top.c if top.k == 'let' else top.a
+            if top.k == 'call' and top.c is not None and top.c.declared.endswith('Future::poll'):
+                continue
             good = c.variant_is(0)
             # for Option, Some is 1: `if let Some(x) = f()`
             e = c.expr
@@ -806,3 +812,77 @@ def mentions_next(e):
 def calls_decl(body, *suffixes):
     """call sites whose *declared* callee (trait method before resolution) ends with a suffix"""
     return [c for c in body.calls() if any(c.declared.endswith(x) for x in suffixes)]
+
+
+# ------------------------------------------------------------------------------------------------
+# EXIT-GUARD for iterative lookups
+# ------------------------------------------------------------------------------------------------
+
+def main_loop_with(body, call_rx, depth=3):
+    """the outermost natural loop whose body contains a call matching call_rx — directly, or inside
+    a closure / async block constructed in the loop (e.g. `batch.iter().map(|n| async move {send(..)})`)"""
+    rx = re.compile(call_rx)
+    prog = body.prog
+    hot = set()
+    for c in body.calls():
+        if rx.search(c.callee):
+            hot.add(c.bb)
+    for bi, si, s in body.stmts():
+        r = s['r']
+        if r['k'] == 'agg' and r.get('def') and r['def'] in prog.bodies:
+            for cid in prog.family(r['def']):
+                cb = prog.bodies.get(cid)
+                if cb is not None and any(rx.search(c.callee) for c in cb.calls()):
+                    hot.add(bi)
+    best = None
+    for h, nodes in natural_loops(body):
+        if hot & nodes:
+            if best is None or len(nodes) > len(best[1]):
+                best = (h, nodes)
+    return best
+
+
+def classify_exits(body, loop, sink_blocks, queue_names):
+    """for each exit edge of `loop` from which a sink block is reachable, say why the loop may stop:
+    returns [(kind, cond, line)], kind in
+      queue-empty | batch-empty | budget | stagnation | other"""
+    h, nodes = loop
+    out = []
+    edges = body.edge_nodes()
+    for (a, b) in loop_exits(body, nodes):
+        reach = body.reachable_from([b])
+        if not (reach & set(sink_blocks)):
+            continue
+        c = None
+        node = b if b in edges else (a if a in edges else None)
+        if node is not None:
+            c = F.edge_cond(body, edges[node])
+        else:
+            # exit through a plain goto (break at the end of an if-arm): the innermost dominating switch edge
+            chain = body.dominating_edges(a)
+            for n2, e2 in chain:
+                if n2 in nodes or e2[0] in nodes:
+                    c = F.edge_cond(body, e2)
+                    break
+        ln = body.line_of_block(F.block_of_node(body, a))
+        kind = 'other'
+        if c is not None:
+            t = c.show()
+            if c.kind == 'disc' and c.variant_is(0) and mentions_next(c.expr) is not None and re.search(r'Range', t):
+                kind = 'budget'
+            elif c.kind == 'bool' and c.truth and re.search(r'::is_empty\(', t):
+                inner = c.expr.mentions_call(r'::is_empty$')
+                arg = inner.b[0] if inner is not None and inner.b else None
+                names = [x.b for x in arg.walk() if x.k in ('let', 'local') and x.b] if arg is not None else []
+                if any(nm in queue_names for nm in names):
+                    kind = 'queue-empty'
+                elif any('batch' in nm for nm in names):
+                    kind = 'batch-empty'
+            elif c.kind == 'bool' and c.truth and re.search(r'PartialEq.*::eq\(', t) and 'snapshot' in _names(c.expr):
+                kind = 'stagnation'
+        out.append((kind, c, ln))
+    return out
+
+
+def _names(e):
+    return ' '.join(x.b for x in e.walk() if x.k in ('let', 'local') and x.b)
